@@ -385,6 +385,8 @@ def run_fuzz_stage(prop, seed, outdir, seconds):
 def run_rust_property(prop, tier, seed):
     t0 = time.time()
     groups = plan(prop, tier)
+    if os.environ.get("VERIF_ONLY_DBG") == "1":  # mutation-trial matrix only
+        groups = [g for g in groups if g[0] in ("dbg", "rel")]
     outdir = os.path.join(OUT, "runs", "%s-%s-%d-%d" % (prop, tier, seed, os.getpid()))
     shutil.rmtree(outdir, ignore_errors=True)
     os.makedirs(outdir)
@@ -397,9 +399,12 @@ def run_rust_property(prop, tier, seed):
             log(str(e))
             inconclusive.append("build of variant %s failed" % variant)
     jobs = []
+    scale = os.environ.get("VERIF_SCALE")  # mutation-trial matrix only (tools/matrix.py); never set by registered commands
     for (variant, mode, nprocs, extra) in groups:
         if variant not in argvs:
             continue
+        if scale:
+            extra = extra + ["--scale", scale]
         for sh in range(nprocs):
             argv = argvs[variant] + ["worker", "--prop", prop, "--tier", tier, "--seed", str(seed), "--shard", str(sh), "--nshards", str(nprocs), "--mode", mode, "--flavour", variant] + extra
             timeout = 7200 if tier == "thorough" else 1500
